@@ -37,6 +37,34 @@ CLAIMED = {
    "runtime model-based monitor (ordered-set model stepped in lock-step with the real Result over random operation sequences, all results compared after every step)",
    "Random sequences of the public Result operations run on the real type and on an ordered-set model; every result is compared with its model after every step, so loss, duplication, reordering, count drift and aliasing through operands are caught at the step they occur.",
    "Only the exported API; messages compared by text; sampled sequences.", "DESIGN.md §4 C20"),
+ "C02": ("exploration",
+   "runtime reference-model monitor (raw document judged against the official Swagger 2.0 JSON schema by the independent draft-4 model, next to the real SpecValidator)",
+   "Loadable mutated specifications are validated by the real SpecValidator in both modes and through Spec(); independently the raw JSON is judged against the vendored Swagger 2.0 schema by the draft-4 model; schema-invalid but accepted is a violation unless a recorded finding's exact emulation makes the model accept too.",
+   "One direction only, as stated; vendored schema checked equal to spec.MustLoadSwagger20Schema() at start; model self-checked; sampled.", "DESIGN.md §4 C02"),
+ "C03": ("exploration",
+   "runtime generator-as-oracle monitor (valid-by-construction specifications and single rule-breaking edits, 4 option configurations, real SpecValidator)",
+   "A grammar builds specifications which satisfy every documented rule and 29 single-fault edits each breaking exactly one rule; the real validator must report no error on the former and at least one on the latter in every configuration (overlapping paths only with strict uniqueness).",
+   "The generator is trusted to break exactly the named rule; sampled.", "DESIGN.md §4 C03"),
+ "C07": ("exploration",
+   "runtime crash monitor (structurally mutated loadable specifications through SpecValidator.Validate in both modes, child processes, recover)",
+   "Arbitrary structural edits of valid specifications (incl. odd names, null members, dangling and sibling-carrying $ref) that still load are validated in both modes; any panic or process death is a violation.",
+   "Sampled; loads.Analyzed defines 'loads'.", "DESIGN.md §4 C07"),
+ "C09": ("exploration",
+   "runtime single-fault differential monitor (base / good-value / bad-value twins of one specification through the real SpecValidator)",
+   "One default or example is planted at a chosen location (schemas at depth 0-4, simple parameters, headers, their items, response examples) with an accepted and a rejected value; bad default => error, bad example => extra warning, good value => nothing new. Recorded finding matched by the heuristic's own predicate on the planted path.",
+   "Planted leaf schema is {type:integer,maximum:5}; generator is the oracle for the location; sampled.", "DESIGN.md §4 C09"),
+ "C10": ("exploration",
+   "runtime self-differential monitor across repetitions, fresh processes (new map seeds), continue-on-errors modes and serialisations",
+   "Each document is validated 4x in-process, in 3 fresh processes, in both modes and as JSON / YAML / shuffled-member JSON; outcomes (verdict, error set, warning set, cycle messages reduced to their cycle) must coincide; stop-early errors must be a subset of continue-mode errors; separate warnings == attached warnings; warnings alone never invalidate.",
+   "Map-order dependence is only visible when different orders are drawn (>=7 independent draws per document); sampled.", "DESIGN.md §4 C10"),
+ "C14": ("exploration",
+   "runtime reference-model monitor (textbook definitions of the 13 exported helpers, purity and argument snapshots)",
+   "Every helper is called on generated arguments, twice, with its container arguments snapshotted; the nil/error answer is compared with an independently written textbook definition.",
+   "Homogeneous element types for UniqueItems; strings.EqualFold as the definition of case folding; sampled.", "DESIGN.md §4 C14"),
+ "C15": ("exploration",
+   "Go race detector + runtime reference monitor (fresh -race process per goroutine/GOMAXPROCS configuration, colliding pattern families, answers compared with regexp compiled from the asked pattern)",
+   "1..64 goroutines released together first-use the same new patterns, then mix shared, private and invalid ones through Pattern and pattern/patternProperties schemas; every answer is compared with Go regexp on that very pattern and the race-detector log of every process is parsed.",
+   "Sampled schedules; the race detector only sees interleavings that happened; goroutines are kept alive to the end so their accesses are not forgotten.", "DESIGN.md §4 C15"),
 }
 
 NOT_YET = "check not built yet in this session (see DESIGN.md §4 for the planned monitor)"
